@@ -1347,11 +1347,59 @@ func c8listTilde(c *Ctx) {
 	}
 }
 
+// c8lazyWrappers: language constructs a lazy pipeline passes through on its way to the consumer (try/catch, if, switch,
+// let, map field, list element, closure argument and result, replaceList) hand it on unevaluated
+func c8lazyWrappers(c *Ctx) {
+	type wcase struct {
+		wc    *workerCase
+		limit int
+	}
+	var cases []*wcase
+	var wcs []*workerCase
+	wrappers := []string{"(try @P catch [])", "(try @P catch e -> [])", "(if a >= 0 then @P else [])", "(switch a case 0 : @P default [])", "let z0 = @P; z0", "{k: @P}.k", "[@P][0]", "(x -> x)(@P)",
+		"((x, y) -> x)(@P, 1)", "@P.replaceList(q -> q)", "func idl(q) q; idl(@P)", "{f: q -> q}.f(@P)", "(try (if a >= 0 then @P else []) catch [])", "[1].map(i -> @P).first()", "(@P + [])", "([] + @P)"}
+	stages := []string{".map(x -> tick(x))", ".accept(x -> tick(x) >= 0)", ".number((i, x) -> tick(x))"}
+	conss := []struct {
+		src    string
+		demand int
+	}{{".first()", 1}, {".top(3).size()", 3}, {".skip(5).first()", 6}, {".present(e -> e >= 4)", 5}}
+	for _, n := range []string{"1000", "1000000000"} {
+		for wi, w := range wrappers {
+			for si, st := range stages {
+				for ci, cn := range conss {
+					if (wi+si+ci)%2 == 1 && n == "1000" {
+						continue
+					}
+					src := strings.ReplaceAll(w, "@P", "numbers("+n+")"+st) + cn.src
+					wc := &workerCase{id: fmt.Sprintf("lw%d", len(cases)), a: 0, flags: "opt", src: src}
+					cases = append(cases, &wcase{wc: wc, limit: cn.demand + 4})
+					wcs = append(wcs, wc)
+				}
+			}
+		}
+	}
+	parallelBatches(wcs, 12, false, 4, 60*time.Second)
+	for _, wcse := range cases {
+		c.Case("lazy-wrapper|"+wcse.wc.src, true)
+		c.Count("lazy-wrapper")
+		replay := map[string]any{"program": wcse.wc.src, "outcome": wcse.wc.outcome, "closure_evaluations": wcse.wc.ticks, "limit": wcse.limit}
+		switch {
+		case wcse.wc.outcome == "TIMEOUT" || wcse.wc.outcome == "CRASH":
+			c.Violation("construct-walks-the-list", "a lazy pipeline handed through a language construct was walked to its end", replay)
+		case !strings.HasPrefix(wcse.wc.outcome, "OK "):
+			c.Violation("lazy-wrapper-wrong-result", "unexpected outcome", replay)
+		case wcse.wc.ticks > wcse.limit:
+			c.Violation("construct-evaluates-the-list", fmt.Sprintf("a lazy pipeline handed through a language construct had its closures evaluated %d times, the consumer demands %d", wcse.wc.ticks, wcse.limit-4), replay)
+		}
+	}
+}
+
 func runC08(c *Ctx) {
 	if os.Getenv("VERIF_REPLAY") == "" {
 		c8parallelDemand(c)
 		c8reuse(c)
 		c8listTilde(c)
+		c8lazyWrappers(c)
 	}
 	c.rule = "pipelines source (numbers(n) | host-provided lazy list | list literal | a+b) -> 0..3 lazy stages (map, accept, top, skip, combine, combine3, combineN, iir, iirCombine, number, compact; a counting host function inside every closure) -> short-circuit consumer (first, single, top(v).size, top(v) collected, present, indexWhere, ~, multiUse of 1..3 of them), evaluated by the real code in a child process for the decisive element at positions k in 0..200, sources of the demanded length, +1, 10^3/2*10^4 and 10^11, and a throwing element before/at/behind the decisive one in every closure and in the source; every evaluation is one case; non-trivial = at least one lazy stage between source and consumer and at least two source elements pulled (k >= 1)"
 	c.assume = append(c.assume,
